@@ -128,7 +128,7 @@ def derived_part(ctx, beacon, rng):
             cfg.append((i, v))
         ev.append(derived_event(beacon, cfg))
         ctx.evaluations += 1
-    alpha = b"ab./,,\x00-_:\xe9"
+    alpha = b"abAB./,,\x00-_:\xe9"   # (upper and lower case: host names are compared as bytes, nothing is folded)
     for _ in range(150 if q else 6000):
         text = bytes(rng.choice(alpha) for _i in range(rng.randrange(0, 30)))
         ev.append(pairs_event(beacon, text, pad=rng.choice([0, 64, 256]), earlier=rng.choice([None, None, b"first.example,/first", b"", b"x,/y,z,/w"])))
@@ -260,8 +260,8 @@ CHECK_DEADLOCK FALSE
     # derived: domain/URI pairs, protocol, port, kill date, watermark, trial flag
     for _ in range(40 if q else 600):
         n = rng.randrange(1, 5)
-        doms = [rng.choice(["a.example", "b.example", "c.test", "xn--e1afmkfd.xn--p1ai"]) for _ in range(n)]
-        uris = [rng.choice(["/x", "/y/z.js", "/x", "/__utm.gif"]) for _ in range(n)]
+        doms = [rng.choice(["a.example", "b.example", "c.test", "xn--e1afmkfd.xn--p1ai", "A.example", "a.EXAMPLE"]) for _ in range(n)]
+        uris = [rng.choice(["/x", "/y/z.js", "/x", "/__utm.gif", "/X"]) for _ in range(n)]
         s = ",".join(f"{d},{u}" for d, u in zip(doms, uris))
         proto = rng.choice([0, 1, 2, 4, 8, 16])
         port = rng.randrange(0, 65536)
